@@ -74,8 +74,20 @@ fn export_types(db: &DbIndex) -> Vec<Type> {
     let type_index = db.get_type_index();
     let module_index = db.get_module_index();
     let mut types = type_index.get_all_types();
-    // the index hands types out in hash-map order: sort for a reproducible export
-    types.sort_by(|a, b| a.get_full_name().cmp(b.get_full_name()));
+    // the index hands types out in hash-map order: sort for a reproducible export; a file-private
+    // type may share its name with other types, so ties are broken by the first declaration site
+    let first_location = |type_decl: &LuaTypeDecl| {
+        type_decl
+            .get_locations()
+            .iter()
+            .map(|loc| (loc.file_id, u32::from(loc.range.start())))
+            .min()
+    };
+    types.sort_by(|a, b| {
+        a.get_full_name()
+            .cmp(b.get_full_name())
+            .then_with(|| first_location(a).cmp(&first_location(b)))
+    });
 
     types
         .into_iter()
